@@ -1,12 +1,110 @@
 import J5V.Bcl.ErrPrintProofs
+import J5V.Bcl.FirstErrorProofs
+import J5V.Bcl.PosLines
+import J5V.Generated.BcltokensFacts
 /-!
 # C11 — BCL parser is total and every diagnostic points inside the file
 
-Only property theorems (+ non-vacuity examples).  Models: `J5V.Bcl.Lexer`, `J5V.Bcl.Parser`,
-`J5V.Bcl.ErrPrint`; lemmas: `J5V.Bcl.*Proofs`.  All statements hold for every classifier `cls`.
+Only property theorems (+ non-vacuity examples, + obligations over facts regenerated from the source).
+Models: `J5V.Bcl.Lexer`, `J5V.Bcl.Parser`, `J5V.Bcl.ErrPrint`; lemmas: `J5V.Bcl.*Proofs`, `PosLines`.
+Every statement holds for **every** classifier `cls` and **every** rune string `src` (Go strings reach
+the lexer through `[]rune(data)`, modelled by `decodeRunes`, so this covers every byte string); there
+is no bound on length, nesting or token count.
+
+`InFileLC src p` is "`p.line < lineCount` and `p.col ≤` rune length of that line" over
+`strings.Split(src, "\n")` (the EOL / EOF column is allowed); `p ≤ q` is the lexicographic order.
+The node predicates `Statement.okList Q`, `Fragment.ok Q`, `Diag.ok Q` (ParserProofs) say that the node and
+every node below it (block headers, references, identifiers, tags, values incl. nested arrays,
+descriptions, attached comments, and the tokens stored in them) has `start ≤ end` with both ends in `Q`.
 -/
 namespace J5V.Props.C11
 open J5V.Go J5V.Bcl
+
+/-! ## Lexer: progress, termination, positions -/
+
+/-- each `NextToken` consumes at least one rune of a non-empty input (at end of input it returns EOF) -/
+theorem C11_lex_progress (cls : Cls) (c : Cur) (r : Rune) (rs : List Rune) :
+    (nextToken cls c (r :: rs)).rest.length < (r :: rs).length :=
+  nextToken_progress cls c r rs
+
+theorem C11_lex_eof (cls : Cls) (c : Cur) :
+    (nextToken cls c []).err = none ∧ (nextToken cls c []).tok.ty = .eof :=
+  nextToken_nil cls c
+
+/-- `AllTokens` terminates: the model's fuel (`len + 2`) is never exhausted. -/
+theorem C11_lex_total (cls : Cls) (ff : Bool) (src : List Rune) : allTokens cls ff src ≠ .nofuel := by
+  have := allTokens_spec cls ff src
+  intro h; rw [h] at this; exact this
+
+/-- tokens of an error-free lex: `start ≤ end`, both inside the file, in source order, none is EOF -/
+theorem C11_token_positions (cls : Cls) (ff : Bool) (src : List Rune) (ts : List Token)
+    (h : allTokens cls ff src = .toks ts) :
+    ts.Pairwise (fun t u => t.end_ ≤ u.start) ∧
+    ∀ t ∈ ts, t.start ≤ t.end_ ∧ InFileLC src t.start ∧ InFileLC src t.end_ ∧ t.ty ≠ .eof := by
+  have := allTokens_spec cls ff src
+  rw [h] at this
+  obtain ⟨h1, h2⟩ := this.props
+  exact ⟨h1, fun t ht => ⟨(h2 t ht).2.1, (h2 t ht).2.2.1.toLC, (h2 t ht).2.2.2.1.toLC,
+    (h2 t ht).2.2.2.2⟩⟩
+
+/-- lexer errors (both modes): at least one, each positioned inside the file -/
+theorem C11_lex_error_positions (cls : Cls) (ff : Bool) (src : List Rune) (es : List LexErr)
+    (h : allTokens cls ff src = .errs es) : es ≠ [] ∧ ∀ e ∈ es, InFileLC src e.pos := by
+  have := allTokens_spec cls ff src
+  rw [h] at this
+  exact ⟨allTokensLoop_errs_ne_nil cls ff _ _ _ _ _ _ h, fun e he => (this e he).toLC⟩
+
+/-! ## Parser: total, positions, first error -/
+
+/-- For any input, in fail-fast or collect-all mode, `ParseFile` returns a tree or a **non-empty** list
+of diagnostics; it never panics (`popToken` on an empty slice, `NewReference` of no idents) and always
+terminates (no fuel exhaustion in the lexer loop, the fragment loop, the tag / qualifier loops or the
+nested-array recursion). -/
+theorem C11_parse_total (cls : Cls) (src : List Rune) (ff : Bool) :
+    (∃ f, parseFile cls src ff = .tree f) ∨ (∃ es, es ≠ [] ∧ parseFile cls src ff = .errors es) := by
+  have := parseFile_spec (fun _ => True) cls src ff (fun _ _ => trivial)
+  cases h : parseFile cls src ff with
+  | tree f => exact Or.inl ⟨f, rfl⟩
+  | errors es => rw [h] at this; exact Or.inr ⟨es, this.1, rfl⟩
+  | panic s => rw [h] at this; exact this.elim
+
+theorem C11_parse_no_panic (cls : Cls) (src : List Rune) (ff : Bool) (s : String) :
+    parseFile cls src ff ≠ .panic s := by
+  rcases C11_parse_total cls src ff with ⟨f, h⟩ | ⟨es, _, h⟩ <;> rw [h] <;> simp
+
+/-- Every tree node and every diagnostic has `start ≤ end` with both positions inside the input. -/
+theorem C11_positions (cls : Cls) (src : List Rune) (ff : Bool) :
+    (∀ f, parseFile cls src ff = .tree f → Statement.okList (InFileLC src) f.body) ∧
+    (∀ es, parseFile cls src ff = .errors es → ∀ d ∈ es, Diag.ok (InFileLC src) d) := by
+  have := parseFile_spec (InFileLC src) cls src ff (fun _ h => h.toLC)
+  constructor
+  · intro f h; rw [h] at this; exact this
+  · intro es h; rw [h] at this; exact this.2
+
+/-- … and so has every fragment the formatter / FmtDiffs work on; fragments are in source order. -/
+theorem C11_fragment_positions (cls : Cls) (src : List Rune) (frags : List Fragment)
+    (h : collectFragments cls src = .ok frags) : FragChain (InFileLC src) ⟨0, 0⟩ frags := by
+  have := collectFragments_spec (InFileLC src) cls src (fun _ h => h.toLC)
+  rw [h] at this; exact this
+
+/-- Collect-all mode reports the fail-fast diagnostic first: both modes give the same tree, or both
+give diagnostics with the same first element. -/
+theorem C11_first_error (cls : Cls) (src : List Rune) :
+    ParseAgree (parseFile cls src true) (parseFile cls src false) :=
+  parseFile_agree cls src
+
+/-- unfolded form of `ParseAgree` for the error case -/
+theorem C11_first_error_head (cls : Cls) (src : List Rune) (e1 : List Diag)
+    (h : parseFile cls src true = .errors e1) :
+    ∃ e0, parseFile cls src false = .errors e0 ∧ e0.head? = e1.head? ∧ e1 ≠ [] := by
+  have := parseFile_agree cls src
+  rw [h] at this
+  cases h0 : parseFile cls src false with
+  | tree f => rw [h0] at this; exact this.elim
+  | errors e0 => rw [h0] at this; exact ⟨e0, rfl, this.2, this.1⟩
+  | panic s => rw [h0] at this; exact this.elim
+
+/-! ## Rendering -/
 
 /-- Rendering diagnostics against the source never fails: for **arbitrary** (also negative,
 out-of-range, mid-rune) positions, arbitrary source lines and any context size, `HumanString` reaches
@@ -19,5 +117,52 @@ theorem C11_render_total (errs : List (Option IPosition)) (lines : List (List Na
 theorem C11_render_one_total (pos : Option IPosition) (lines : List (List Nat)) (ctx : Int) :
     ∃ out, humanString pos lines ctx = .ok out :=
   humanString_no_panic pos lines ctx
+
+/-! ## Non-vacuity (evaluated by the kernel on `asciiCls`) -/
+
+/-- a nested, multi-line file parses to a tree -/
+example : (match parseFile asciiCls (ofAscii "a.b = [1, [2.5, \"x\"]] // hi\nblk foo ! bar:baz {\n | desc\n}\n") true with
+    | .tree f => decide (f.body.length = 2) | _ => false) = true := by decide +kernel
+
+/-- collect-all yields two diagnostics, fail-fast the first of them -/
+example : (match parseFile asciiCls (ofAscii "a = \nb\nc = = 1\n") false,
+      parseFile asciiCls (ofAscii "a = \nb\nc = = 1\n") true with
+    | .errors e0, .errors e1 => decide (e0.length = 2 ∧ e1.length = 1 ∧ e0.head? = e1.head?)
+    | _, _ => false) = true := by decide +kernel
+
+/-- lexer errors in both modes -/
+example : (match allTokens asciiCls false (ofAscii "a = \"x\n1.2.3 #"), allTokens asciiCls true (ofAscii "a = \"x\n1.2.3 #") with
+    | .errs e0, .errs e1 => decide (e0.length = 3 ∧ e1.length = 1)
+    | _, _ => false) = true := by decide +kernel
+
+end J5V.Props.C11
+
+/-! ## Obligations over facts regenerated from the current source (`extract bcltokens`)
+
+The model hard-codes the operator table, the literal range, the empty keyword table, the case
+structure of `NextToken` / `lexEscape` / `nextFragment`, `popToken`'s EOF synthesis and that every exit
+of `walkStatement` assigns `hdr.End`; these obligations re-check on every run that the source still
+says so. -/
+namespace J5V.Props.C11
+open J5V.Generated.Bcltokens
+
+theorem C11_src_operators : operatorChars =
+    [("ASSIGN", "="), ("LBRACE", "{"), ("RBRACE", "}"), ("LBRACK", "["), ("RBRACK", "]"), ("DOT", "."),
+     ("COMMA", ","), ("COLON", ":"), ("PLUS", "+"), ("BANG", "!"), ("QUESTION", "?")] := by decide
+theorem C11_src_operators_init : operatorsInit = "operators[rune(tokens[i][0])] = i" := by decide
+theorem C11_src_literals : literalKinds =
+    ["IDENT", "STRING", "REGEX", "INT", "DECIMAL", "BOOL", "COMMENT", "BLOCK_COMMENT", "DESCRIPTION"] ∧
+    keywordKinds = [] ∧
+    canStartTag = ["IDENT", "STRING", "REGEX", "BANG", "QUESTION", "BOOL"] := by decide
+theorem C11_src_nextToken : nextTokenPrelude =
+    ["l.next()", "if l.ch == lexerEofChr => return l.tokenOf(EOF), nil",
+     "if op, ok := operators[l.ch]; ok => return l.tokenOf(op), nil", "startPos := l.getPosition()"] ∧
+    nextTokenCases = ["'/'", "'\"'", "'|'", "'\\n'", "default"] ∧
+    lexEscapeCases = ["'\\\\', '\\n', quote"] := by decide
+theorem C11_src_walkStatement_end : walkStatementEndSet =
+    [("LBRACE", true), ("DESCRIPTION", true), ("COMMENT", true), ("EOL, EOF", true), ("default", true)] := by
+  decide
+theorem C11_src_nextFragment : nextFragmentCases =
+    ["EOF", "EOL", "RBRACE", "COMMENT, BLOCK_COMMENT", "DESCRIPTION", "IDENT, BOOL", "default"] := by decide
 
 end J5V.Props.C11
